@@ -413,6 +413,10 @@ class PerformedNote:
             raise KeyError(f"Key {key} not accepted for PerformedNote")
         self._validate_values((key, value))
         self.pnote_dict[key] = value
+        if key == "pitch":
+            # "midi_pitch" is the key the readers of performed notes look up
+            # (note_array, the sustain pedal adjustment, the exporters)
+            self.pnote_dict["midi_pitch"] = value
 
     def __delitem__(self, key):
         raise KeyError("Cannot delete items from PerformedNote")
